@@ -19,6 +19,10 @@
  *   Fw<p>,<n> Ft<p> Fm<p>,<mode> Fu<p> Fc<p> Fd<p>   write n bytes / truncate / chmod / unlink /
  *                           create / mkdir the scratch file of path p
  *   Fo<p>,<field>,<delta>   from now on add delta to field <field> of every statx answer for p
+ *   Fe<p>,<errno>           from now on every statx of p fails with <errno> (2 ENOENT, 13 EACCES) without
+ *                           touching the file; 0 = the real answer again
+ *   Fh  Fs                  rename the directory holding the odd-numbered paths away / back
+ * Paths: even ids are <dir>/p<i>, odd ids <dir>/sub/p<i>.
  * Output tokens: r<code>  p<h>,<cb>,<status>,<prev>,<curr>  x<h>  s<p>  o...  q<p>=<status>/<sb>
  *   z<rc>,<ctx live>,<other live>
  */
@@ -69,6 +73,8 @@ int __wrap_epoll_pwait(int epfd, struct epoll_event* ev, int max, int timeout, c
 static char pathname[MAXP][512];
 static int npaths;
 static int64_t overlay[MAXP][NF];
+static int force_err[MAXP];
+static char subdir[512], subaway[512];
 static int statlog[4096];
 static volatile int nstatlog;
 
@@ -104,6 +110,16 @@ long __wrap_syscall(long n, ...) {
   va_start(ap, n);
   for (i = 0; i < 6; i++) a[i] = va_arg(ap, long);
   va_end(ap);
+#ifdef __NR_statx
+  if (n == __NR_statx) {
+    int p = path_id((const char*) a[1]);
+    if (p >= 0 && force_err[p]) {
+      if (nstatlog < 4096) statlog[nstatlog++] = p;
+      errno = force_err[p];
+      return -1;
+    }
+  }
+#endif
   rc = __real_syscall(n, a[0], a[1], a[2], a[3], a[4], a[5]);
 #ifdef __NR_statx
   if (n == __NR_statx) {
@@ -135,7 +151,9 @@ static void print_sb(const uv_stat_t* b) { uint64_t f[NF]; sb_fields(b, f); prin
 /* the harness's own stat of path p (glibc statx(), not through libuv), overlay applied */
 static void oracle_path(int p) {
   struct statx sx; uint64_t f[NF]; struct kstatx k;
-  int rc = statx(AT_FDCWD, pathname[p], 0, 0xFFF, &sx);
+  int rc;
+  if (force_err[p]) { printf("q%d=%d/0 ", p, -force_err[p]); return; }
+  rc = statx(AT_FDCWD, pathname[p], 0, 0xFFF, &sx);
   if (rc != 0) { printf("q%d=%d/0 ", p, -errno); return; }
   memset(&k, 0, sizeof k);
   k.stx_ctime.tv_nsec = sx.stx_ctime.tv_nsec; k.stx_mtime.tv_nsec = sx.stx_mtime.tv_nsec;
@@ -238,6 +256,8 @@ static void close_cb(uv_handle_t* h) { H[idx(h)]->closed = 1; printf("x%d ", idx
 
 static void file_op(const char* tok) {
   int p = -1; long a = 0, b = 0; int fd;
+  if (tok[1] == 'h') { rename(subdir, subaway); return; }
+  if (tok[1] == 's') { rename(subaway, subdir); return; }
   sscanf(tok + 2, "%d,%ld,%ld", &p, &a, &b);
   if (p < 0 || p >= npaths) return;
   switch (tok[1]) {
@@ -251,6 +271,7 @@ static void file_op(const char* tok) {
   case 'u': if (unlink(pathname[p]) != 0) rmdir(pathname[p]); break;
   case 'd': mkdir(pathname[p], 0755); break;
   case 'o': if (a >= 0 && a < NF) overlay[p][a] += b; break;
+  case 'e': force_err[p] = (a == 2 || a == 13) ? (int) a : 0; break;
   }
 }
 
@@ -334,7 +355,10 @@ int main(int argc, char** argv) {
     *p2++ = 0;
     { unsigned long long t0 = 0; sscanf(line, "%llu %d", &t0, &npaths); vclock_ms = t0; }
     if (npaths > MAXP) npaths = MAXP;
-    for (k = 0; k < npaths; k++) snprintf(pathname[k], sizeof pathname[k], "%s/p%d", dir, k);
+    snprintf(subdir, sizeof subdir, "%s/sub", dir); snprintf(subaway, sizeof subaway, "%s/sub.away", dir);
+    mkdir(subdir, 0755);
+    for (k = 0; k < npaths; k++)
+      snprintf(pathname[k], sizeof pathname[k], (k & 1) ? "%s/sub/p%d" : "%s/p%d", dir, k);
     base = live_total;
     uv_loop_init(&loop); g_loop = &loop;
     {
